@@ -127,13 +127,19 @@ fn verdict(cx: &mut Cx, r: Result<Result<f64, (&'static str, String)>, PanicInfo
             }
         }
         Ok(Err((kind, text))) => {
+            if text.contains("reused instance panics") {
+                cx.panic_seen(&PanicInfo { loc: "jaccard (reused instance)".into(), msg: text.clone() }, || json!({"call": format!("similarity({:?},{:?}) {}", a, b, ctx)}));
+            }
             let sig = format!("C17:{}", kind);
             cx.fail(&sig, || {
                 json!({"a": a, "b": b, "context": ctx, "problem": text,
                        "unit_test": format!("// needs RUSTFLAGS=\"--cfg lucid_suggest_verif\"\n#[test]\nfn replay() {{\n    use lucid_suggest_core::verif::Jaccard;\n    let a: Vec<char> = {}.chars().collect();\n    let b: Vec<char> = {}.chars().collect();\n    // {}\n    panic!(\"similarity = {{}}\", Jaccard::new().similarity(&a, &b));\n}}\n", lit(a), lit(b), text)})
             });
         }
-        Err(p) => cx.undecided(&p, || format!("similarity({:?},{:?}) {}", a, b, ctx)),
+        Err(p) => {
+            cx.panic_seen(&p, || json!({"call": format!("similarity({:?},{:?}) {}", a, b, ctx)}));
+            cx.undecided(&p, || format!("similarity({:?},{:?}) {}", a, b, ctx))
+        }
     }
 }
 
